@@ -22,7 +22,11 @@ typedef struct { unsigned char line[N]; } vin_t;
 void HARNESS(void) { VIN(vin_t);
   /* one header line "xxxx\\n" (LF or CRLF ending) with no line break inside and a first byte that is not a folding character */
   for (int i = 0; i + 1 < N; i++) VASSUME(in.line[i] != '\\n' && (in.line[i] != '\\r' || i + 2 == N));
+#ifdef CR_AT_END
+  VASSUME(in.line[N - 1] == '\\r' && in.line[0] != ' ' && in.line[0] != '\\t' && in.line[0] != 0 && in.line[0] != '\\r');
+#else
   VASSUME(in.line[N - 1] == '\\n' && in.line[0] != ' ' && in.line[0] != '\\t' && in.line[0] != 0 && in.line[0] != '\\r');
+#endif
 #ifdef CONCRETE_TAIL
   /* the response state function is too branchy for a fully symbolic line: only the first byte (the one the folding test looks at) stays symbolic */
   for (int i = 1; i + 1 < N; i++) VASSUME(in.line[i] == (i == 1 ? ':' : 'b'));
@@ -40,6 +44,13 @@ void HARNESS(void) { VIN(vin_t);
   c->DIR_current_data = chunk; c->DIR_current_len = N;
   htp_status_t rc = STATE_FN(c);
   if (rc == HTP_ERROR) { /* allocation failure while keeping the line */ free(c->DIR_header); free(c->DIR_buf); free(chunk); return; }
+#ifdef CR_AT_END
+  /* the chunk ends with the CR of an unfinished line: the state must ask the driver to BUFFER it (DATA_BUFFER), not to drop it (DATA) */
+  VASSERT(rc == HTP_DATA_BUFFER, "a line cut between CR and LF asks for buffering (HTP_DATA would make the driver drop the unconsumed part of the line)");
+  VASSERT(g_processed == 0 && c->DIR_header == NULL, "nothing is processed or kept before the line is complete");
+  VASSERT(c->DIR_current_read_offset == N && c->DIR_current_consume_offset == 0, "whole chunk read, nothing consumed: the driver buffers exactly the line's bytes");
+  free(c->DIR_buf); free(chunk);
+#else
   VASSERT(rc == HTP_DATA_BUFFER, "a header line ending exactly at the chunk end asks for more data");
   VASSERT(g_processed == 0, "look-ahead defers: the header is NOT processed before the first byte of the next line is known (it may be a folded continuation)");
   VASSERT(c->DIR_header != NULL, "the line is kept pending");
@@ -50,6 +61,7 @@ void HARNESS(void) { VIN(vin_t);
   }
   VASSERT(c->DIR_current_read_offset == N, "the whole chunk was read");
   free(c->DIR_header); free(c->DIR_buf); free(chunk);
+#endif
   CANARY(); }'''
 for d, fn, src in (('in', 'htp_connp_REQ_HEADERS', 'htp_request.c'), ('out', 'htp_connp_RES_HEADERS', 'htp_response.c')):
     UNITS.append(U(name='%s_lookahead_defers' % fn, props=['C03', 'C02'], kind='bounded', src=[src], link=['htp_util.c', 'bstr.c', 'htp_hooks.c', 'htp_list.c'],
@@ -60,3 +72,90 @@ for d, fn, src in (('in', 'htp_connp_REQ_HEADERS', 'htp_request.c'), ('out', 'ht
                    sub='L2 at the header-folding look-ahead of %s: a complete header line that ends exactly at the chunk end is kept pending and not processed, because the next chunk may start with a folded continuation' % fn,
                    assumes=['cfg->process_*_header replaced by a counting stub through the function pointer; real line assembly, chomp, folding test, buffer handling',
                             'bounded by line length; the deferral condition itself does not depend on the length', 'bstr_dup_mem replaced by a constant-capacity model inside this TU']))
+
+for d, fn, src in (('in', 'htp_connp_REQ_HEADERS', 'htp_request.c'), ('out', 'htp_connp_RES_HEADERS', 'htp_response.c')):
+    UNITS.append(U(name='%s_cr_at_chunk_end' % fn, props=['C03', 'C02'], kind='bounded', src=[src], link=['htp_util.c', 'bstr.c', 'htp_hooks.c', 'htp_list.c'],
+                   replay='vin', pre='#define bstr_dup_mem v_model_dup_mem\n#define bstr_add_mem v_model_add_mem', harness=HDR_H.replace('DIR', d).replace('STATE_FN', fn),
+                   defs={'quick': {'N': 5, 'CR_AT_END': 1}, 'thorough': {'N': 8, 'CR_AT_END': 1}}, min_obl=30, timeout=(600, 2400),
+                   flags_add=['--unwind', '8', '--unwinding-assertions'], flags_del=['--unsigned-overflow-check'], solver='--sat-solver cadical',
+                   bound='header line prefixes of exactly N bytes (quick 5, thorough 8) ending with CR, no LF inside',
+                   sub='L2 at the CR/LF look-ahead of %s: a header line cut between its CR and LF asks for buffering (DATA_BUFFER) with nothing consumed, so that the driver keeps the line; nothing is processed' % fn,
+                   assumes=['cfg->process_*_header replaced by a counting stub through the function pointer; real line assembly, chomp, folding test, buffer handling',
+                            'bounded by line length; the deferral condition itself does not depend on the length', 'bstr_dup_mem replaced by a constant-capacity model inside this TU']))
+
+
+# ---- L2 at the end-of-response probe: RES_FINALIZE looks at the line that follows a response and hands it on ------------------
+FIN_H = r'''
+#ifndef VNATIVE
+void htp_log(htp_connp_t *connp, const char *file, int line, enum htp_log_level_t level, int code, const char *fmt, ...) { }
+#endif
+#define CAP (B + N)
+static unsigned char fin_body[CAP]; static size_t fin_body_n; static int fin_body_calls, fin_complete_calls; static unsigned char fin_treat;
+int v_stub_treat(const uint8_t *data, size_t len) { return fin_treat; }      /* any answer of the "is this a status line?" heuristic */
+htp_status_t v_stub_body(htp_tx_t *tx, const void *data, size_t len) {
+  fin_body_calls++;
+  for (size_t i = 0; i < CAP; i++) if (i < len && fin_body_n + i < CAP) fin_body[fin_body_n + i] = ((const unsigned char *) data)[i];
+  fin_body_n += len; return HTP_OK; }
+htp_status_t v_stub_complete(htp_tx_t *tx, int hybrid_mode) { fin_complete_calls++; return HTP_OK; }
+typedef struct { unsigned char pre[B]; unsigned char chunk[N]; size_t lb; size_t start; unsigned char treat; } vin_t;
+static htp_connp_t C; static htp_tx_t TX; static htp_cfg_t CFG;
+static void run(vin_t in, size_t lb) {            /* lb is a constant at every call site: out_buf is a heap object of exactly lb bytes */
+  htp_connp_t *c = &C; htp_tx_t *tx = &TX; htp_cfg_t *cfg = &CFG;
+  unsigned char *chunk = malloc(N); unsigned char *ob = lb ? malloc(lb) : NULL;
+  if (!chunk || (lb && !ob)) { free(chunk); free(ob); return; }
+  memcpy(chunk, in.chunk, N); if (lb) memcpy(ob, in.pre, lb);
+  cfg->field_limit_hard = 1000; tx->cfg = cfg; tx->connp = c; c->cfg = cfg; c->out_tx = tx; c->out_status = HTP_STREAM_DATA;
+  c->out_current_data = chunk; c->out_current_len = N;
+  c->out_current_read_offset = c->out_current_consume_offset = (int64_t) in.start;
+  c->out_buf = ob; c->out_buf_size = lb; fin_treat = in.treat & 1; fin_body_n = 0; fin_body_calls = 0; fin_complete_calls = 0;
+  /* expected pending byte sequence on entry: the buffered bytes, then the unconsumed rest of the chunk */
+  unsigned char want[CAP]; size_t nw = 0;
+  for (size_t i = 0; i < lb; i++) want[nw++] = in.pre[i];
+  for (size_t i = 0; i < N; i++) if (i >= in.start) want[nw++] = in.chunk[i];
+  htp_status_t rc = htp_connp_RES_FINALIZE(c);
+  if (rc == HTP_ERROR) { free(c->out_buf); free(chunk); return; }            /* allocation failure inside the consolidation */
+  if (rc == HTP_DATA_BUFFER) {
+    VASSERT(c->out_current_read_offset == N && c->out_current_consume_offset == (int64_t) in.start && c->out_buf == ob && c->out_buf_size == lb && fin_body_calls == 0,
+            "probe needs more data: chunk read to its end, nothing consumed, nothing delivered, buffer untouched (the driver buffers the rest)");
+  } else {
+    VASSERT(rc == HTP_OK && fin_complete_calls + fin_body_calls == 1, "either the line is delivered as body (once) or the response is completed (once)");
+    VASSERT(c->out_current_consume_offset >= 0 && c->out_current_consume_offset <= c->out_current_read_offset && c->out_current_read_offset <= N, "cursor order");
+    VASSERT(c->out_buf != NULL || c->out_buf_size == 0, "buffer size without a buffer");
+    /* conservation: bytes delivered as body ++ bytes still buffered ++ unconsumed rest of the chunk == what was pending on entry:
+       the line after a response is handed to the next state exactly once, whatever part of it arrived in an earlier chunk */
+    unsigned char got[2 * CAP]; size_t ng = 0;
+    for (size_t i = 0; i < CAP; i++) if (i < fin_body_n) got[ng++] = fin_body[i];
+    size_t nb = c->out_buf != NULL ? c->out_buf_size : 0;
+    VASSERT(nb <= CAP && fin_body_n <= CAP, "sizes within what was pending");
+    if (nb > CAP || fin_body_n > CAP || c->out_current_consume_offset < 0 || c->out_current_consume_offset > N) { free(c->out_buf); free(chunk); return; }
+    for (size_t i = 0; i < CAP; i++) if (i < nb) got[ng++] = c->out_buf[i];
+    for (size_t i = 0; i < N; i++) if ((int64_t) i >= c->out_current_consume_offset) got[ng++] = in.chunk[i];
+    VASSERT(ng == nw, "conservation (length): delivered ++ buffered ++ unconsumed == pending on entry (no byte of the probed line is lost or doubled)");
+    for (size_t i = 0; i < CAP; i++) if (i < nw && i < ng) VASSERT(got[i] == want[i], "conservation (bytes): same bytes in the same order");
+  }
+  free(c->out_buf); free(chunk);
+}
+void HARNESS(void) { VIN(vin_t);
+  VASSUME(in.lb <= B && in.start <= N);
+  VASSUME(in.lb == 0 || in.start == 0);                         /* a probe continued from an earlier chunk starts at the beginning of this one */
+  for (size_t i = 0; i < B; i++) VASSUME(in.pre[i] != '\n');    /* buffered bytes are an unfinished line */
+  if (in.lb == 0) run(in, 0);
+#if B >= 1
+  else if (in.lb == 1) run(in, 1);
+#endif
+#if B >= 2
+  else if (in.lb == 2) run(in, 2);
+#endif
+#if B >= 3
+  else if (in.lb == 3) run(in, 3);
+#endif
+  CANARY(); }'''
+UNITS.append(U(name='htp_connp_RES_FINALIZE_probe_conserves', props=['C03', 'C06', 'C01'], kind='bounded', src=['htp_response.c'], link=['htp_util.c', 'bstr.c', 'htp_hooks.c', 'htp_list.c'],
+               replay='vin', pre='#define htp_treat_response_line_as_body v_stub_treat\n#define htp_tx_res_process_body_data_ex v_stub_body\n#define htp_tx_state_response_complete_ex v_stub_complete',
+               harness=FIN_H, defs={'quick': {'N': 3, 'B': 2}, 'thorough': {'N': 5, 'B': 3}}, min_obl=30, timeout=(600, 2400),
+               flags_add=['--unwind', '10', '--unwinding-assertions'], flags_del=['--unsigned-overflow-check'], solver='--sat-solver cadical',
+               bound='chunk of N bytes (quick 3, thorough 5) over all byte values, 0..B bytes (quick 2, thorough 3) of the probed line buffered by earlier calls, any start offset',
+               sub='L2 at the end-of-response probe (htp_connp_RES_FINALIZE + real consolidation/buffering): the line that follows a response is either delivered as body once or handed to RES_LINE once — '
+                   'delivered ++ buffered ++ unconsumed equals what was pending on entry, wherever the chunk boundary falls inside that line ("the bytes following the body start the next message")',
+               assumes=['htp_treat_response_line_as_body (heuristic: does the line look like a status line) replaced by a stub that answers arbitrarily; body sink and response completion replaced by logging stubs',
+                        'stream not closed; a probe that continues from an earlier chunk starts at offset 0 of the current one (that is how the driver re-enters a state after DATA_BUFFER)']))
